@@ -203,4 +203,62 @@ theorem find_shallowest {l : List Entry} (hs : DepthSorted l) {pr : Entry → Bo
       · rw [ha] at hp; cases hp
       · exact ih (depthSorted_cons hs) hv w hw hp
 
+/-! ### small generic facts used by Props/C19 -/
+
+theorem inRanges_iff (rs : List Range) (pc : Nat) : inRanges rs pc = true ↔ ∃ r ∈ rs, r.lo ≤ pc ∧ pc < r.hi := by
+  simp [inRanges, Range.contains]
+
+theorem isScope_iff (i : Info) : i.isScope = true ↔ (i.tag = Tag.block ∨ i.tag = Tag.subprogram) := by
+  simp [Info.isScope]
+
+
+theorem length_le_one_eq {α} {l : List α} (h : l.length ≤ 1) {a b : α} (ha : a ∈ l) (hb : b ∈ l) : a = b := by
+  match l, h with
+  | [x], _ => simp at ha hb; rw [ha, hb]
+  | [], _ => simp at ha
+
+
+theorem find_congr_on {α} {l : List α} {p q : α → Bool} (h : ∀ a ∈ l, p a = q a) : l.find? p = l.find? q := by
+  induction l with
+  | nil => rfl
+  | cons a rest ih =>
+    simp only [List.find?_cons, h a (by simp)]
+    rw [ih (fun b hb => h b (List.mem_cons_of_mem _ hb))]
+
+
+theorem insertAt_map {g : Option Nat → Option Nat} (xs : List (Option Nat)) (i : Nat) (v : Option Nat) :
+    (insertAt xs i v).map g = insertAt (xs.map g) i (g v) := by
+  simp [insertAt, List.map_take, List.map_drop]
+
+/-- the positions `DwarfRegisterMap::from` writes to do not depend on the register VALUES: the map for arbitrary
+    field values is the map for the labels 0,1,2,… with every label replaced by the field value -/
+theorem dwarfMapFrom_natural (init : Nat) (ins : List (Nat × Nat)) (fields : List Nat) (k : Nat)
+    (hk : ∀ p ∈ ins, p.2 < k) :
+    dwarfMapFrom init ins fields = (dwarfMapFrom init ins (List.range k)).map (fun o => o.bind fun i => fields[i]?) := by
+  unfold dwarfMapFrom
+  suffices H : ∀ (acc : List (Option Nat)),
+      ins.foldl (fun acc (p : Nat × Nat) => insertAt acc p.1 (fields[p.2]?)) (acc.map fun o => o.bind fun i => fields[i]?) =
+      (ins.foldl (fun acc (p : Nat × Nat) => insertAt acc p.1 ((List.range k)[p.2]?)) acc).map (fun o => o.bind fun i => fields[i]?) by
+    have := H (List.replicate init none)
+    simpa using this
+  induction ins with
+  | nil => intro acc; rfl
+  | cons p rest ih =>
+    intro acc
+    simp only [List.foldl_cons]
+    have hp : p.2 < k := hk p (by simp)
+    rw [← ih (fun q hq => hk q (List.mem_cons_of_mem _ hq))]
+    congr 1
+    rw [insertAt_map]
+    congr 1
+    simp [hp]
+
+
+theorem join_map_bind (fields : List Nat) (o : Option (Option Nat)) :
+    (o.map fun o => o.bind fun i => fields[i]?).join = o.join.bind fun i => fields[i]? := by
+  cases o with
+  | none => rfl
+  | some o => cases o <;> rfl
+
+
 end BsVerif.Scope
